@@ -11,7 +11,7 @@ pub type Label = usize;
 //@item src/tree/graph.rs | struct TreeNode
 //@item src/tree/graph.rs | struct InvalidTreeIndexError | pub-fields
 //@item src/tree/graph.rs | struct Tree | pub-fields
-//@item src/tree/graph.rs | struct Edge
+//@item src/tree/graph.rs | struct Edge | derive=Clone,Copy
 //@item src/tree/iter.rs | struct DfsNodeData | derive=Clone,Copy
 //@item src/tree/iter.rs | struct EdgeData
 //@item src/tree/iter.rs | struct DfsPre | pub-fields
@@ -20,6 +20,10 @@ pub type Label = usize;
 
 //@include prelude/tree_spec.rs
 //@include prelude/iter_spec.rs
+//@include prelude/tree_helpers.rs
+
+pub assume_specification<T, const N: usize>[ <VecDeque<T> as core::convert::From<[T; N]>>::from ](a: [T; N]) -> (r: VecDeque<T>)
+    ensures r@ == a@;
 
 impl<N, const K: usize> Tree<N, K> {
     pub open spec fn wf(&self) -> bool { wf_at(self.arena@, self.root) }
@@ -122,6 +126,186 @@ impl DfsPre {
 //@end
 
 //@fn src/tree/iter.rs | impl TraversalMut for DfsPre | size_hint
+//@spec
+    ensures r.0 == self.size_lb, r.1 == Some(self.size_ub)
+//@end
+}
+
+
+pub proof fn lemma_kid_edges_seq<const K: usize>(ch: [Option<usize>; K], lo: int, depth: usize, src: usize)
+    requires 0 <= lo <= K
+    ensures kid_edges(ch, lo, depth, src).len() == kid_seq(ch, lo).len(),
+        forall|j: int| 0 <= j < kid_seq(ch, lo).len() ==> #[trigger] kid_edges(ch, lo, depth, src)[j] == (depth, src, kid_seq(ch, lo)[j].0, kid_seq(ch, lo)[j].1)
+    decreases K - lo
+{
+    if lo < K {
+        lemma_kid_edges_seq(ch, lo + 1, depth, src);
+        if ch[lo].is_some() {
+            let e = kid_edges(ch, lo, depth, src); let er = kid_edges(ch, lo + 1, depth, src);
+            let k = kid_seq(ch, lo); let kr = kid_seq(ch, lo + 1);
+            assert(e == seq![(depth, src, lo as usize, ch[lo].unwrap())] + er);
+            assert(k == seq![(lo as usize, ch[lo].unwrap())] + kr);
+            assert forall|j: int| 0 <= j < k.len() implies #[trigger] e[j] == (depth, src, k[j].0, k[j].1) by {
+                if j > 0 { assert(e[j] == er[j - 1]); assert(k[j] == kr[j - 1]); }
+            }
+        }
+    }
+}
+
+impl DfsEdge {
+//@fn src/tree/iter.rs | impl TraversalMut for DfsEdge | new
+//@spec
+    requires tree.root is Some, tree.arena@.dom().contains(root)
+    ensures
+        // the traversal starts with the edges leaving the given root (lowest label on top)
+        r.stack@ == kid_edges(tree.arena@[root].children, 0, 1, root).reverse(),
+        r.last_push == 0,
+//@hint loop 1 before
+        let ghost full = kid_edges(tree.arena@[root].children, 0, 1, root);
+        proof { lemma_kid_edges_seq(tree.arena@[root].children, 0, 1, root); }
+//@loop 1
+            invariant
+                0 <= __i <= __kids@.len(), full.len() == __kids@.len(),
+                forall|j: int| 0 <= j < full.len() ==> #[trigger] full[j] == (1usize, root, __kids@[j].label, __kids@[j].target_idx),
+                stack@.len() == __kids@.len() - __i,
+                forall|j: int| 0 <= j < stack@.len() ==> #[trigger] stack@[j] == full[full.len() - 1 - j],
+            decreases __i
+//@hint loop 1 after
+        proof { assert(stack@ =~= full.reverse()); }
+//@end
+
+//@fn src/tree/iter.rs | impl TraversalMut for DfsEdge | next
+//@sigsub Self::Item => EdgeData
+//@spec
+    requires estack_ok(tree.arena@, old(self).stack@)
+    ensures
+        edge_step(tree.arena@, old(self).stack@, final(self).stack@, final(self).last_push, r),
+        r is None ==> final(self).last_push == old(self).last_push && final(self).size_lb == old(self).size_lb && final(self).size_ub == old(self).size_ub,
+        edge_step(tree.arena@, old(self).stack@, final(self).stack@, final(self).last_push, r) ==>
+            forall|h: Map<usize, nat>| #[trigger] edge_inv(tree.arena@, h, old(self).stack@) ==>
+                edge_inv(tree.arena@, h, final(self).stack@),
+        edge_step(tree.arena@, old(self).stack@, final(self).stack@, final(self).last_push, r) ==>
+            forall|h: Map<usize, nat>| #[trigger] edge_inv(tree.arena@, h, old(self).stack@) ==>
+                (r is Some ==> rem_e(tree.arena@, h, old(self).stack@) == seq![old(self).stack@.last()] + rem_e(tree.arena@, h, final(self).stack@)),
+        edge_step(tree.arena@, old(self).stack@, final(self).stack@, final(self).last_push, r) ==>
+            forall|h: Map<usize, nat>| #[trigger] edge_inv(tree.arena@, h, old(self).stack@) ==>
+                (r is None ==> rem_e(tree.arena@, h, old(self).stack@).len() == 0),
+        edge_step(tree.arena@, old(self).stack@, final(self).stack@, final(self).last_push, r) ==>
+            forall|h: Map<usize, nat>| #[trigger] edge_inv(tree.arena@, h, old(self).stack@) ==>
+                (esize_ok(tree.arena@, h, old(self).stack@, old(self).size_lb, old(self).size_ub)
+                        ==> esize_ok(tree.arena@, h, final(self).stack@, final(self).size_lb, final(self).size_ub)),
+//@hint start
+        proof {
+            assert forall|h: Map<usize, nat>, s1: Seq<EItem>, lp: usize, r: Option<EdgeData>|
+                #[trigger] edge_inv(tree.arena@, h, old(self).stack@) && #[trigger] edge_step(tree.arena@, old(self).stack@, s1, lp, r) implies
+                edge_inv(tree.arena@, h, s1)
+                && (r is Some ==> rem_e(tree.arena@, h, old(self).stack@) == seq![old(self).stack@.last()] + rem_e(tree.arena@, h, s1))
+                && (r is None ==> rem_e(tree.arena@, h, old(self).stack@).len() == 0) by {
+                lemma_edge_step(tree.arena@, h, old(self).stack@, s1, lp, r);
+            }
+        }
+//@hint loop 1 before
+        let ghost rest = self.stack@;
+        let ghost ch = node.children;
+        let ghost dp = (depth + 1) as usize;
+        proof { assert(kid_edges(ch, K as int, dp, dest_idx) =~= Seq::<EItem>::empty()); assert(rest + Seq::<EItem>::empty() =~= rest); }
+//@loop 1
+            invariant
+                0 <= __i <= K, node.children.len() == K, node.children == ch,
+                self.last_push == count_some_from(ch, __i as int), self.last_push + __i <= K,
+                self.stack@ == rest + kid_edges(ch, __i as int, dp, dest_idx).reverse(),
+                depth < usize::MAX, dp == depth + 1,
+                self.size_lb == old(self).size_lb, self.size_ub == old(self).size_ub,
+            decreases __i
+//@hint loop 1 start
+            proof { lemma_edge_push_step(ch, __i as int - 1, dp, dest_idx, rest); lemma_kid_edges_len(ch, __i as int - 1, dp, dest_idx); }
+//@end
+
+//@fn src/tree/iter.rs | impl TraversalMut for DfsEdge | skip_subtree
+//@spec
+    ensures
+        eskip_step(old(self).stack@, old(self).last_push, final(self).stack@, final(self).last_push),
+        final(self).size_lb <= final(self).stack@.len(),
+        final(self).size_ub + old(self).last_push >= old(self).size_ub,
+//@hint loop 1 before
+        let ghost s0 = self.stack@;
+        let ghost lp = self.last_push;
+//@loop 1
+            invariant
+                self.last_push == lp, self.size_lb == old(self).size_lb, self.size_ub == old(self).size_ub,
+                s0 == old(self).stack@, lp == old(self).last_push,
+                self.stack@ == s0.take(if __k <= s0.len() { s0.len() - __k } else { 0 }),
+//@end
+
+//@fn src/tree/iter.rs | impl TraversalMut for DfsEdge | size_hint
+//@spec
+    ensures r.0 == self.size_lb, r.1 == Some(self.size_ub)
+//@end
+}
+
+impl Bfs {
+//@fn src/tree/iter.rs | impl TraversalMut for Bfs | new
+//@spec
+    requires tree.root is Some
+    ensures
+        r.queue@ == seq![DfsNodeData { depth: 0, index: root, n_remaining: 0 }],
+        r.last_push == 0,
+//@end
+
+//@fn src/tree/iter.rs | impl TraversalMut for Bfs | next
+//@spec
+    requires stack_ok(tree.arena@, old(self).queue@)
+    ensures
+        bfs_step(tree.arena@, old(self).queue@, final(self).queue@, final(self).last_push, r),
+        r is None ==> final(self).last_push == old(self).last_push && final(self).size_lb == old(self).size_lb && final(self).size_ub == old(self).size_ub,
+        // one item fewer to come
+        r is Some ==> final(self).size_lb <= (if old(self).size_lb > 0 { old(self).size_lb - 1 } else { 0 })
+            && final(self).size_ub + 1 >= old(self).size_ub,
+//@hint loop 1 before
+        let ghost rest = self.queue@;
+        let ghost ch = node.children;
+        let ghost dp = (data.depth + 1) as usize;
+        proof { lemma_kid_items_len(ch, 0, dp); }
+//@loop 1
+            invariant
+                0 <= __i <= K, node.children.len() == K, node.children == ch,
+                n_children == count_some_from(ch, 0), n_children <= K,
+                __n + count_some_from(ch, __i as int) == n_children,
+                self.queue@ + kid_items(ch, __i as int, dp) == rest + kid_items(ch, 0, dp),
+                self.last_push == __n,
+                data.depth < usize::MAX, dp == data.depth + 1,
+                self.size_lb == old(self).size_lb, self.size_ub == old(self).size_ub,
+            decreases K - __i
+//@hint loop 1 start
+            proof {
+                let ghost q0 = self.queue@;
+                if ch[__i as int].is_some() {
+                    let item = DfsNodeData { depth: dp, index: ch[__i as int].unwrap(), n_remaining: count_some_from(ch, __i as int + 1) as usize };
+                    assert(kid_items(ch, __i as int, dp) == seq![item] + kid_items(ch, __i as int + 1, dp));
+                    assert(q0.push(item) + kid_items(ch, __i as int + 1, dp) =~= q0 + (seq![item] + kid_items(ch, __i as int + 1, dp)));
+                }
+            }
+//@hint loop 1 after
+        proof { assert(kid_items(ch, K as int, dp) =~= Seq::<DfsNodeData>::empty()); assert(self.queue@ =~= self.queue@ + Seq::<DfsNodeData>::empty()); }
+//@end
+
+//@fn src/tree/iter.rs | impl TraversalMut for Bfs | skip_subtree
+//@spec
+    ensures
+        bfs_skip_step(old(self).queue@, old(self).last_push, final(self).queue@, final(self).last_push),
+        final(self).size_lb <= final(self).queue@.len(),
+        final(self).size_ub + old(self).last_push >= old(self).size_ub,
+//@hint loop 1 before
+        let ghost s0 = self.queue@;
+        let ghost lp = self.last_push;
+//@loop 1
+            invariant
+                self.last_push == lp, self.size_lb == old(self).size_lb, self.size_ub == old(self).size_ub,
+                s0 == old(self).queue@, lp == old(self).last_push,
+                self.queue@ == s0.take(if __k <= s0.len() { s0.len() - __k } else { 0 }),
+//@end
+
+//@fn src/tree/iter.rs | impl TraversalMut for Bfs | size_hint
 //@spec
     ensures r.0 == self.size_lb, r.1 == Some(self.size_ub)
 //@end
